@@ -61,7 +61,7 @@ def tsan_run(exe, kind, readers, ops, seed):
     try:
         p = subprocess.run([exe, kind, str(readers), str(ops), str(seed), "-"], capture_output=True, text=True, timeout=1500, env=env)
     except subprocess.TimeoutExpired:
-        raise vlib.Infra("tsan run timed out: %s %d" % (kind, readers))
+        raise vlib.Hang([exe, kind, str(readers), str(ops), str(seed), "-"], 1500)
     reports = p.stderr.split("==================")
     reports = [r for r in reports if "WARNING: ThreadSanitizer" in r]
     if p.returncode != 0 and not reports:
@@ -85,7 +85,7 @@ def run(tier, seed):
     for k in KINDS:
         for rd in readers:
             for rnd in range(1 if quick else 3):
-                pr = vlib.run([exe, k, str(rd), str(ops), str(seed * 100 + n), trace], timeout=600, check=False)
+                pr = vlib.run([exe, k, str(rd), str(ops), str(seed * 100 + n), trace], timeout=int(os.environ.get("VERIF_STRESS_TIMEOUT", "600")), check=False)
                 if pr.returncode != 0:
                     # the code under test crashed under concurrent use (e.g. a container corrupted by a race): an observation, not an infra failure
                     os.makedirs(vlib.REPLAY, exist_ok=True)
